@@ -341,7 +341,7 @@ def gen_cuts(rng, text, tier):
     elif kind == "one-cut":
         cuts = {rng.randint(1, n - 1)}
     cuts = sorted(c for c in cuts if 0 < c < n)
-    cuts = thin_for_model(rng, text, cuts, 3e6 if tier == "quick" else 1.5e7)
+    cuts = thin_for_model(rng, text, cuts, 3e6 if tier == "quick" or rng.random() < 0.93 else 1.2e7)
     return cuts, kind
 
 
@@ -531,12 +531,15 @@ def correspond(env, searching=False, model=True):
         raise RuntimeError("naija build failed: " + out[-2000:])
     build_shim()
     rng = env.rng
-    n_cases = 1500 if env.tier == "quick" else 40000
-    n_pipe = 40 if env.tier == "quick" else 600
+    n_cases = 1500 if env.tier == "quick" else 24000
+    n_pipe = 40 if env.tier == "quick" else 500
     if searching:
         n_cases = int(n_cases * 1.5)
     t_start = time.time()
-    deadline = t_start + (40 if env.tier == "quick" else 3000)
+    # time budgets (seconds after the start): debug pass, release pass (thorough only), runs without the shim
+    deadline = t_start + (40 if env.tier == "quick" else 1000)
+    deadline_release = t_start + 1400
+    deadline_pipe = t_start + (60 if env.tier == "quick" else 1700)
 
     corpus = load_corpus()
     n_corpus = len(corpus)
@@ -563,15 +566,16 @@ def correspond(env, searching=False, model=True):
         passes += [(s0, True) for s0 in range(n_cases, n_cases + n_cases // 4, shard)]
     release_cases = 0
     for s0, release in passes:
-        if time.time() > deadline and s0 > 0:
+        if time.time() > (deadline_release if release else deadline) and s0 > 0:
             stopped_early = True
-            break
+            if release:
+                break
+            continue
         if release and not RELEASE[0]:
             ok, out = common.build_naija(release=True)
             if not ok:
                 raise RuntimeError("naija release build failed: " + out[-2000:])
         RELEASE[0] = release
-        release_cases += shard if release else 0
         batch = list(corpus) if s0 == 0 or (release and s0 == n_cases) else []
         while len(batch) < shard:
             batch.append(gen_case(rng, env.tier))
@@ -601,6 +605,7 @@ def correspond(env, searching=False, model=True):
                 inconclusive += 1
                 continue
             evaluations += 1
+            release_cases += 1 if release else 0
             f = features(case, res["log"])
             bump(hist["class"], case["class"])
             bump(hist["recipe"], case["recipe"])
@@ -669,7 +674,7 @@ def correspond(env, searching=False, model=True):
     pipe_runs = pipe_bad = 0
     prng = rng
     for i in range(n_pipe):
-        if time.time() > deadline + (20 if env.tier == "quick" else 600):
+        if time.time() > deadline_pipe:
             break
         case = gen_case(prng, env.tier)
         mode = "file" if i % 5 == 4 else "pipe"
@@ -703,6 +708,7 @@ def correspond(env, searching=False, model=True):
     hist["stopped_early_by_time_budget"] = stopped_early
     hist["corpus_cases"] = n_corpus
     hist["profiles"] = {"debug": evaluations - release_cases, "release": release_cases}
+    hist["cases_planned"] = len(passes) * shard
     return {
         "evaluations": evaluations,
         "distinct_nontrivial": len(nontrivial),
